@@ -1,0 +1,221 @@
+//! Drop-in replacement for the `tokio` crate name inside `net/*`: TCP types which, when a
+//! [`SimNet`] is installed on the current thread, are backed by the simulation harness, and
+//! otherwise are the real tokio types.  `spawn_blocking` (only used for name resolution of
+//! `ip:port` hosts here) runs inline under simulation.
+#![allow(missing_docs, unreachable_pub)]
+use std::{
+    cell::RefCell,
+    future::Future,
+    io as sio,
+    net::SocketAddr,
+    pin::Pin,
+    rc::Rc,
+    task::{Context, Poll},
+};
+
+pub use ::tokio::*;
+
+/// A simulated byte stream.
+pub trait SimStream: ::tokio::io::AsyncRead + ::tokio::io::AsyncWrite + Send + Unpin {
+    fn peer_addr(&self) -> sio::Result<SocketAddr>;
+    fn local_addr(&self) -> sio::Result<SocketAddr>;
+}
+
+/// A simulated listening socket.
+pub trait SimListener: Send {
+    fn poll_accept(&mut self, cx: &mut Context<'_>) -> Poll<sio::Result<(Box<dyn SimStream>, SocketAddr)>>;
+    fn local_addr(&self) -> sio::Result<SocketAddr>;
+}
+
+pub type ConnectFuture = Pin<Box<dyn Future<Output = sio::Result<Box<dyn SimStream>>> + Send>>;
+
+/// The simulated network, installed per thread by the harness.
+pub trait SimNet {
+    fn connect(&self, addr: SocketAddr) -> ConnectFuture;
+    fn listen(&self, addr: SocketAddr) -> sio::Result<Box<dyn SimListener>>;
+    /// An unused local address (port 0 was requested).
+    fn reserve(&self, v6: bool) -> SocketAddr;
+}
+
+thread_local! {
+    static NET: RefCell<Option<Rc<dyn SimNet>>> = const { RefCell::new(None) };
+}
+
+pub fn install_net(n: Option<Rc<dyn SimNet>>) {
+    NET.with(|x| *x.borrow_mut() = n);
+}
+
+fn sim_net() -> Option<Rc<dyn SimNet>> {
+    NET.with(|x| x.borrow().clone())
+}
+
+pub mod task {
+    pub use ::tokio::task::*;
+
+    /// Under simulation the closure runs inline, as an ordinary (gated) task.
+    pub fn spawn_blocking<F, R>(f: F) -> ::tokio::task::JoinHandle<R>
+    where
+        F: FnOnce() -> R + Send + 'static,
+        R: Send + 'static,
+    {
+        if super::super::is_simulated() {
+            super::super::tokio_shim::spawn(async move { f() })
+        } else {
+            ::tokio::task::spawn_blocking(f)
+        }
+    }
+}
+
+pub mod net {
+    use super::*;
+    pub use ::tokio::net::{lookup_host, ToSocketAddrs, UdpSocket};
+
+    pub enum TcpStream {
+        Real(::tokio::net::TcpStream),
+        Sim(Box<dyn SimStream>),
+    }
+
+    impl TcpStream {
+        pub async fn connect(addr: SocketAddr) -> sio::Result<Self> {
+            // The `Rc` must not live across the await (the future has to be `Send`).
+            let fut = sim_net().map(|n| n.connect(addr));
+            match fut {
+                Some(f) => Ok(Self::Sim(f.await?)),
+                None => Ok(Self::Real(::tokio::net::TcpStream::connect(addr).await?)),
+            }
+        }
+        pub fn set_nodelay(&self, v: bool) -> sio::Result<()> {
+            match self {
+                Self::Real(s) => s.set_nodelay(v),
+                Self::Sim(_) => Ok(()),
+            }
+        }
+        pub fn peer_addr(&self) -> sio::Result<SocketAddr> {
+            match self {
+                Self::Real(s) => s.peer_addr(),
+                Self::Sim(s) => s.peer_addr(),
+            }
+        }
+        pub fn local_addr(&self) -> sio::Result<SocketAddr> {
+            match self {
+                Self::Real(s) => s.local_addr(),
+                Self::Sim(s) => s.local_addr(),
+            }
+        }
+    }
+
+    impl ::tokio::io::AsyncRead for TcpStream {
+        fn poll_read(self: Pin<&mut Self>, cx: &mut Context<'_>, buf: &mut ::tokio::io::ReadBuf<'_>) -> Poll<sio::Result<()>> {
+            match self.get_mut() {
+                Self::Real(s) => Pin::new(s).poll_read(cx, buf),
+                Self::Sim(s) => Pin::new(s).poll_read(cx, buf),
+            }
+        }
+    }
+
+    impl ::tokio::io::AsyncWrite for TcpStream {
+        fn poll_write(self: Pin<&mut Self>, cx: &mut Context<'_>, buf: &[u8]) -> Poll<sio::Result<usize>> {
+            match self.get_mut() {
+                Self::Real(s) => Pin::new(s).poll_write(cx, buf),
+                Self::Sim(s) => Pin::new(s).poll_write(cx, buf),
+            }
+        }
+        fn poll_flush(self: Pin<&mut Self>, cx: &mut Context<'_>) -> Poll<sio::Result<()>> {
+            match self.get_mut() {
+                Self::Real(s) => Pin::new(s).poll_flush(cx),
+                Self::Sim(s) => Pin::new(s).poll_flush(cx),
+            }
+        }
+        fn poll_shutdown(self: Pin<&mut Self>, cx: &mut Context<'_>) -> Poll<sio::Result<()>> {
+            match self.get_mut() {
+                Self::Real(s) => Pin::new(s).poll_shutdown(cx),
+                Self::Sim(s) => Pin::new(s).poll_shutdown(cx),
+            }
+        }
+    }
+
+    pub enum TcpListener {
+        Real(::tokio::net::TcpListener),
+        Sim(Box<dyn SimListener>),
+    }
+
+    impl TcpListener {
+        pub async fn accept(&mut self) -> sio::Result<(TcpStream, SocketAddr)> {
+            match self {
+                Self::Real(l) => l.accept().await.map(|(s, a)| (TcpStream::Real(s), a)),
+                Self::Sim(l) => {
+                    let (s, a) = std::future::poll_fn(|cx| l.poll_accept(cx)).await?;
+                    Ok((TcpStream::Sim(s), a))
+                }
+            }
+        }
+        pub fn local_addr(&self) -> sio::Result<SocketAddr> {
+            match self {
+                Self::Real(l) => l.local_addr(),
+                Self::Sim(l) => l.local_addr(),
+            }
+        }
+    }
+
+    pub enum TcpSocket {
+        Real(::tokio::net::TcpSocket),
+        Sim { v6: bool, addr: std::sync::Mutex<Option<SocketAddr>> },
+    }
+
+    impl TcpSocket {
+        pub fn new_v4() -> sio::Result<Self> {
+            Ok(match sim_net() {
+                Some(_) => Self::Sim { v6: false, addr: Default::default() },
+                None => Self::Real(::tokio::net::TcpSocket::new_v4()?),
+            })
+        }
+        pub fn new_v6() -> sio::Result<Self> {
+            Ok(match sim_net() {
+                Some(_) => Self::Sim { v6: true, addr: Default::default() },
+                None => Self::Real(::tokio::net::TcpSocket::new_v6()?),
+            })
+        }
+        pub fn set_reuseaddr(&self, v: bool) -> sio::Result<()> {
+            match self {
+                Self::Real(s) => s.set_reuseaddr(v),
+                Self::Sim { .. } => Ok(()),
+            }
+        }
+        pub fn set_reuseport(&self, v: bool) -> sio::Result<()> {
+            match self {
+                Self::Real(s) => s.set_reuseport(v),
+                Self::Sim { .. } => Ok(()),
+            }
+        }
+        pub fn bind(&self, a: SocketAddr) -> sio::Result<()> {
+            match self {
+                Self::Real(s) => s.bind(a),
+                Self::Sim { v6, addr } => {
+                    let a = if a.port() == 0 {
+                        sim_net().ok_or(sio::ErrorKind::NotConnected)?.reserve(*v6)
+                    } else {
+                        a
+                    };
+                    *addr.lock().unwrap() = Some(a);
+                    Ok(())
+                }
+            }
+        }
+        pub fn local_addr(&self) -> sio::Result<SocketAddr> {
+            match self {
+                Self::Real(s) => s.local_addr(),
+                Self::Sim { addr, .. } => addr.lock().unwrap().ok_or(sio::ErrorKind::AddrNotAvailable.into()),
+            }
+        }
+        pub fn listen(self, backlog: u32) -> sio::Result<TcpListener> {
+            match self {
+                Self::Real(s) => s.listen(backlog).map(TcpListener::Real),
+                Self::Sim { addr, .. } => {
+                    let a = addr.lock().unwrap().ok_or(sio::ErrorKind::AddrNotAvailable)?;
+                    let net = sim_net().ok_or(sio::ErrorKind::NotConnected)?;
+                    net.listen(a).map(TcpListener::Sim)
+                }
+            }
+        }
+    }
+}
